@@ -76,11 +76,13 @@ class C30(Prop):
                   "command line is built -- the CWL CommandLineBinding rules as cwltool applies them (spec_*) and "
                   "StreamFlow's _get_value_for_command/_get_value_repr/_escape_value/bind/_merge_tokens/sort/"
                   "_get_executable_command plus the translator's quoting flags (sf_*): for every tool of the modelled "
-                  "binding language and every input object, the text StreamFlow hands to the shell is the reference "
+                  "binding language and every input object in job_typed (no null/boolean array items printed one by one, no "
+                  "empty list out of a valueFrom under a prefix -- there the runners differ: C30_bool_null_items_refuted, "
+                  "C30_empty_valuefrom_refuted, C30_silent_items_prefix_refuted), the text StreamFlow hands to the shell is the reference "
                   "text, and whenever every piece is quoted (always without ShellCommandRequirement; with it when no "
                   "binding says shellQuote:false) a POSIX shell gives the tool exactly the reference argv, verbatim, for "
                   "all strings; EnvVarRequirement values and redirection targets reach the tool verbatim through "
-                  "create_command; stdout/stderr are on a file exactly when declared (execute's stream defaults).  "
+                  "create_command; an undeclared stderr is not redirected (execute's stream defaults).  "
                   "The models are tied to the code by running generated tools (1..6 bound inputs, every modelled option, "
                   "hostile strings) through StreamFlow and cwltool for real and comparing each model with its "
                   "implementation; the oracle compares what the two tool processes received (argv, environment, "
@@ -90,7 +92,7 @@ class C30(Prop):
                   "outside.  Bindings on array items are in both models: cwltool's sort keys were read off bind_input "
                   "([P,name] + [P,name,n,itempos,name,name] under an array binding, [n,itempos,name,name] without); the "
                   "theorems cover item bindings under an array binding that leaves shellQuote unwritten and has a shell-safe "
-                  "prefix (C30_item_binding_order); C30_item_only_order_refuted, C30_item_twice_refuted, "
+                  "prefix (C30_line_equiv/C30_argv_equiv, example C30_item_binding_order_ex); C30_item_only_order_refuted, C30_item_twice_refuted, "
                   "C30_item_array_prefix_refuted are the witnesses of the three known divergences.  The declared "
                   "EnvVarRequirement variables are compared with the model (sf_env) for every completed case.  "
                   "PARTIAL: records, File arguments, "
@@ -103,7 +105,8 @@ class C30(Prop):
     TECHNIQUE = ("Coq proof (two executable models + equivalence and shell-quoting theorems) + vm_compute correspondence "
                  "of each model with its implementation + differential oracle StreamFlow vs cwltool on real runs")
     RULE = ("a case = one generated CWL v1.2 CommandLineTool (0..3 arguments, 1..6 inputs with inputBinding: "
-            "string/int/boolean/float/double/optional/array types (floats written into the job file with spellings Python's "
+            "string/int/boolean/float/double/optional/array types incl. boolean[] and arrays with null items, empty arrays "
+            "reached through valueFrom (floats written into the job file with spellings Python's "
             "repr does not reproduce: 0.00001, 2.50, 1e3, 1.50e1, -0.0000001 ...), position ties and negatives, prefix, separate, itemSeparator, "
             "shellQuote, valueFrom literal/$(self)/$(inputs.x); ShellCommandRequirement in ~40%; EnvVarRequirement, "
             "stdin/stdout/stderr in ~35%; item-level bindings in ~12%) + an input object whose strings come from a list "
@@ -430,7 +433,8 @@ class C30(Prop):
     # A case may show several of them at once; signature() accepts a difference only if it is explained COMPLETELY by
     # the classes the case can exhibit, and names -- among the classes actually used -- one that is not listed in
     # known/C30.txt first (so an unlisted class is never hidden behind a listed one).
-    ARGV_CLASSES = ("bound-items-array-prefix-unquoted", "item-and-array-binding-quoted-twice", "item-binding-order")
+    ARGV_CLASSES = ("bool-null-items-printed", "empty-valuefrom-prefix", "silent-items-array-prefix",
+                    "bound-items-array-prefix-unquoted", "item-and-array-binding-quoted-twice", "item-binding-order")
 
     def _known_sigs(self):
         if not hasattr(self, "_ks"):
@@ -448,6 +452,72 @@ class C30(Prop):
         order_ok = any(i["bind"] is None for i in arrs)      # only item-only arrays are ordered differently
         used = set()
         exp = list(ra)
+        # (1) a valueFrom that evaluates to an EMPTY list under a prefix: cwltool emits the bare prefix (split by the shell
+        #     when the binding says shellQuote: false), StreamFlow nothing
+        def evaluated(b, own):
+            vf = b["vf"]
+            return own if not vf or vf[0] == "self" else vf[1] if vf[0] == "lit" else c["job"].get(vf[1])
+
+        def unit(b):
+            raw = c["shell"] and b["quote"] is False
+            return tuple(b["prefix"].split()) if raw and re.fullmatch(r"[\w@%+=:,./ \t-]*", b["prefix"]) else (b["prefix"],)
+        bare = [unit(b) for b in c["args"] if b["prefix"] is not None and evaluated(b, None) == []]
+        bare += [unit(i["bind"]) for i in c["inputs"] if i["bind"] and i["item"] is None and i["bind"]["vf"]
+                 and i["bind"]["prefix"] is not None and c["job"].get(i["name"]) is not None
+                 and evaluated(i["bind"], c["job"].get(i["name"])) == []]
+        # (2) an array binding's prefix over bound items that all generate nothing (null, false, true without item prefix)
+        silent = lambda i, x: x is None or x is False or (x is True and i["item"]["prefix"] is None)
+        quiet_p = [i["bind"]["prefix"] for i in arrs if i["bind"] and i["bind"]["prefix"] is not None
+                   and all(silent(i, x) for x in c["job"][i["name"]])]
+        prefixes = [p for p in prefixes if p not in quiet_p]
+        # (3) null / boolean items of an array bound without valueFrom and itemSeparator: StreamFlow prints them
+        printed = [str(x) for i in c["inputs"] if i["bind"] and i["item"] is None and isinstance(c["job"].get(i["name"]), list)
+                   and not i["bind"]["vf"] and i["bind"]["isep"] is None
+                   for x in c["job"][i["name"]] if x is None or isinstance(x, bool)]
+        dels = tuple(sorted(bare + [(p,) for p in quiet_p]))
+        if dels or printed:
+            # align: delete every such prefix from the reference argv, every printed item from StreamFlow's
+            import functools
+
+            @functools.lru_cache(maxsize=None)
+            def align(i, j, D, P):
+                if i == len(exp) and j == len(sa) and not D and not P:
+                    return ((), ())
+                if i < len(exp) and j < len(sa) and exp[i] == sa[j]:
+                    r = align(i + 1, j + 1, D, P)
+                    if r is not None:
+                        return ((exp[i],) + r[0], (sa[j],) + r[1])
+                for u in set(D):
+                    if tuple(exp[i:i + len(u)]) == u:
+                        d2 = list(D)
+                        d2.remove(u)
+                        r = align(i + len(u), j, tuple(d2), P)
+                        if r is not None:
+                            return r
+                if j < len(sa) and sa[j] in P:
+                    p2 = list(P)
+                    p2.remove(sa[j])
+                    r = align(i, j + 1, D, tuple(p2))
+                    if r is not None:
+                        return r
+                # nothing to delete here: the two may still differ by the other classes; step over
+                if i < len(exp) and j < len(sa):
+                    r = align(i + 1, j + 1, D, P)
+                    if r is not None:
+                        return ((exp[i],) + r[0], (sa[j],) + r[1])
+                return None
+
+            sa = list(sa)
+            r = align(0, 0, dels, tuple(sorted(printed)))
+            if r is None:
+                return None
+            exp, sa = list(r[0]), list(r[1])
+            if bare:
+                used.add("empty-valuefrom-prefix")
+            if quiet_p:
+                used.add("silent-items-array-prefix")
+            if printed:
+                used.add("bool-null-items-printed")
         for p in prefixes:       # the array's own prefix reaches sh unquoted
             if p not in exp:
                 return None
